@@ -2,6 +2,9 @@ mod backtrack;
 pub mod codegen;
 pub mod simplify;
 
+#[cfg(lexgen_verif)]
+pub mod verif;
+
 #[cfg(test)]
 pub mod simulate;
 
